@@ -353,6 +353,23 @@ inductive Op where
   | aSize (a : Nat)
   deriving Inhabited
 
+/-- literal keys of an operation (what the clash predicate of the findings F15d/F15f looks at) -/
+def opKeys : Op → List Key
+  | .mCtor es => es.map (·.1)
+  | .mPut _ k _ | .mGet _ k | .mContains _ k | .mEntry k _ | .mFind _ k => [k]
+  | .mRemove _ ks => ks
+  | .lookup _ (some ks) => ks
+  | _ => []
+
+def Key.isBool : Key → Bool
+  | .bool _ => true
+  | _ => false
+
+/-- `?` with a boolean key specifier: Python takes it as the position 0/1 of an array (F15d) -/
+def opBoolLookup : Op → Bool
+  | .lookup _ (some ks) => ks.any Key.isBool
+  | _ => false
+
 structure St where
   store : Store
   env : List Seq
